@@ -121,9 +121,9 @@ PROPS["C06"] = {
     "level": "exploration",
     "design_ref": "DESIGN.md §3 C06",
     "technique": "runtime monitoring with a differential oracle: generated handler programs interpreted into real boxed EventHandlers on a derived agent under the real runtime vs a reference interpreter of the documented semantics",
-    "text": "100 000 (quick) / 3 000 000 (thorough) generated handler programs over the documented combinators (set/update/remove/clear/get/effect/and_then/followed_by/suspend/fail/stop/command) are interpreted into real EventHandlers on a derived agent (3 value lanes, 2 map lanes, value store, map store, 2 command lanes) run by the real AgentRouteTask/AgentModel loop under remote command and sync frames, harness-completed suspended futures and poll jitter. The full execution trace (handler entries with arguments and previous values, reads, writes) and all final item states must equal those of a reference interpreter of docs/event_handler.md + lifecycle.md: depth-first, on_event then on_set, true previous entry, on_start first, on_stop last, each change triggers once, nothing of a handler or of the handlers it interrupted after a failure.",
+    "text": "100 000 (quick) / 3 000 000 (thorough) generated handler programs over the documented combinators (set/update/remove/clear/get/effect/and_then/followed_by/suspend/fail/stop/command) are interpreted into real EventHandlers on a derived agent (3 value lanes, 2 map lanes, value store, map store, 2 command lanes) run by the real AgentRouteTask/AgentModel loop under remote command and sync frames, harness-completed suspended futures and poll jitter. The full execution trace (handler entries with arguments and previous values, reads, writes) and all final item states must equal those of a reference interpreter of docs/event_handler.md + lifecycle.md: depth-first, on_event then on_set, true previous entry, on_start first, on_stop last, each change triggers once, nothing of a handler or of the handlers it interrupted after a failure. Across restarts (engine agent, part persist-and-restart: 3 000 / 100 000 conversations, each restarted at cut points of its store log): the first on_set / on_update after a restart is told the restored state - what a syncing remote has just been shown - as the previous value.",
     "note": "Trusted base: the ~330-line reference interpreter and the program-to-handler interpretation; logging only through context.effect / map closures. Acyclic programs only; cascades up to depth 8. Whether the agent task as a whole fails after a handler failure is *not* part of the statement: the runtime swallows a failure of a handler started by a remote command (logged as a rejected frame) and that is counted as an observation (--lenient-external-fail), not a violation.",
-    "runs": [{"engine": "handlers", "args": ["--lenient-external-fail", "1"]}],
+    "runs": [{"engine": "handlers", "args": ["--lenient-external-fail", "1"]}, {"engine": "agent"}],
     "assumptions": ["one remote; order between frames to different lanes is only checked at quiescence", "a set to the same value and a clear of an empty map are accepted with or without triggering"],
 }
 
